@@ -22,6 +22,7 @@ OWNERS = {
     'C15': ['C15.'],
     'C19': ['C19.'],
     'C08': ['C08.'],
+    'C13': ['C13.'],
 }
 
 
@@ -44,7 +45,7 @@ def script_hash(s):
     return hashlib.sha1(json.dumps([s['comp'], s['cfg'], s['ops']], sort_keys=True).encode()).hexdigest()
 
 
-def binding_selftest(ctx, trace_module, trace_path, mutate, cfg=None, extra_env=None):
+def binding_selftest(ctx, trace_module, trace_path, mutate, cfg=None, extra_env=None, skip=()):
     """Demonstrate that the specification is bound to the recording: corrupt one
     recorded field / delete one event of accepted traces; TLC must reject each
     mutant exactly there. A mutant that is accepted is an infrastructure error
@@ -52,6 +53,8 @@ def binding_selftest(ctx, trace_module, trace_path, mutate, cfg=None, extra_env=
     traces = vlib.split_traces(trace_path)
     muts = []
     for tid, (first, evs) in traces.items():
+        if tid in skip:      # only traces the specification accepted are mutated
+            continue
         for kind, m in mutate(evs):
             m = copy.deepcopy(m)
             m[0]['tid'] = 'selftest-%s-%s' % (kind, tid)
@@ -84,7 +87,8 @@ def dbuf_mutants(evs):
             m = copy.deepcopy(evs)
             m[i]['data'][-1] = (m[i]['data'][-1] + 1) % 256
             yield 'flipbyte', m
-            if i + 1 < len(evs) - 1 and (e.get('n', 1) or 0) > 0:
+            if i + 1 < len(evs) - 1 and (e.get('n', 1) or 0) > 0 and 'data' in evs[i + 1] \
+                    and evs[i + 1]['off'] >= e['off']:
                 m2 = copy.deepcopy(evs)
                 del m2[i]
                 yield 'delevent', m2
@@ -149,7 +153,8 @@ def finish(ctx, fam, scripts, trace_module, mutants, features, trace_cfg=None, e
     log('[%s] validating %d recorded events against %s' % (ctx.prop, nev, trace_module))
     bad = vlib.validate(ctx, trace_module, tpath, cfg=trace_cfg, extra_env=extra_env)
     res = vlib.judge(ctx, trace_module, scripts, tpath, bad, OWNERS, trace_cfg=trace_cfg, extra_env=extra_env)
-    st = binding_selftest(ctx, trace_module, tpath, mutants, cfg=trace_cfg, extra_env=extra_env)
+    st = binding_selftest(ctx, trace_module, tpath, mutants, cfg=trace_cfg, extra_env=extra_env,
+                          skip={b['tid'] for b in bad})
     traces = vlib.split_traces(tpath)
     feat = {}
     nontrivial = set()
@@ -181,7 +186,10 @@ def finish(ctx, fam, scripts, trace_module, mutants, features, trace_cfg=None, e
     )
     if extra_cov:
         cov.update(extra_cov)
-    vlib.write_evidence(ctx, cov, fam['assumptions'], len(res['violations']))
+    if getattr(ctx, 'parts', None) is not None:
+        ctx.parts.append((cov, fam['assumptions'], len(res['violations'])))
+    else:
+        vlib.write_evidence(ctx, cov, fam['assumptions'], len(res['violations']))
     log('[%s] %d traces, %d events, %d rejected (%d foreign, %d known), %d violations; %.0fs'
         % (ctx.prop, len(traces), nev, len(bad), res['foreign'], len(res['known']), len(res['violations']),
            time.time() - ctx.t0))
@@ -192,6 +200,46 @@ def vlib_hash(s):
     return script_hash(s)
 
 
+def merge_cov(parts):
+    out = {}
+    for cov, _, _ in parts:
+        for k, v in cov.items():
+            if k not in out:
+                out[k] = copy.deepcopy(v)
+            elif isinstance(v, bool):
+                out[k] = out[k] and v
+            elif isinstance(v, int):
+                out[k] += v
+            elif isinstance(v, dict) and isinstance(out[k], dict):
+                for kk, vv in v.items():
+                    if isinstance(vv, int) and isinstance(out[k].get(kk), int):
+                        out[k][kk] += vv
+                    else:
+                        out[k].setdefault(kk, vv)
+            elif isinstance(v, list) and isinstance(out[k], list):
+                out[k] = out[k] + [x for x in v if x not in out[k]]
+            elif isinstance(v, str) and isinstance(out[k], str) and v != out[k]:
+                out[k] = out[k] + ' || ' + v
+    return out
+
+
+def run_multi(ctx, fam):
+    """A property decided on several components: run each part, merge the
+    evidence, fail if any part fails."""
+    ctx.parts = []
+    rcs = []
+    for sub in fam['parts']:
+        rcs.append(sub['run'](ctx, sub))
+    parts = ctx.parts
+    ctx.parts = None
+    cov = merge_cov(parts)
+    assumptions = []
+    for _, a, _ in parts:
+        assumptions += [x for x in a if x not in assumptions]
+    vlib.write_evidence(ctx, cov, assumptions, sum(v for _, _, v in parts))
+    return 1 if any(r == 1 for r in rcs) else (2 if any(r == 2 for r in rcs) else 0)
+
+
 DBUF_ASSUME = [
     'TLC evaluates the TLA+ envelope correctly; the Go recorder logs arguments, results and the exported fields Data/R/Off faithfully (binding self-test: corrupted/deleted events are rejected)',
     'uint32 fields are saturated at 2^29 in recordings (TLC integers are 32 bit); recorded streams are shorter than that',
@@ -199,11 +247,16 @@ DBUF_ASSUME = [
 ]
 
 
+COMP_TRACE = {'tworun': 'TwoRun_Trace', 'dbuf': 'DecoderBuf_Trace', 'dec': 'Decoder_Trace', 'parser': 'Parser_Trace', 'wrap': 'Wrap_Trace'}
+
+
 def replay(ctx, fam, path):
     body = json.load(open(path))
     script = body['script']
     tpath = vlib.drive(ctx, [script], name='replay')
-    bad = vlib.validate(ctx, fam['trace_module'], tpath, cfg=fam.get('trace_cfg'), extra_env=fam.get('extra_env'))
+    tm = COMP_TRACE.get(script.get('comp'), fam.get('trace_module'))
+    env = {'VERIF_C11': '1' if ctx.prop == 'C11' else '0', 'VERIF_C12': '1' if ctx.prop == 'C12' else '0'}
+    bad = vlib.validate(ctx, tm, tpath, cfg=fam.get('trace_cfg'), extra_env=env)
     mine = [b for b in bad if vlib.owned(ctx.prop, b['why'], OWNERS)]
     for ev in vlib.read_ndjson(tpath):
         print(json.dumps(vlib.clip(ev)))
@@ -251,7 +304,9 @@ def dec_mutants(evs):
                     yield 'flipbyte', m
                     return
     for i, e in enumerate(evs):
-        if e['op'] == 'dec.write' and e.get('n', 0) > 0 and i + 2 < len(evs):
+        if e['op'] == 'dec.write' and e.get('n', 0) > 0 and i + 2 < len(evs) \
+                and not any(x['op'] == 'dec.reset' for x in evs[i:]) \
+                and any(x['op'] == 'dec.flush' and x['err'] == '' for x in evs[i:]):
             m = copy.deepcopy(evs)
             del m[i]
             yield 'delevent', m
@@ -349,12 +404,25 @@ def parser_mutants(evs):
             m[i]['lits'][0] = (m[i]['lits'][0] + 1) % 256
             yield 'flipbyte', m
             break
-    for i, e in enumerate(evs):
-        if e['op'] == 'write' and e.get('n', 0) > 0 and any(x['op'] == 'parse' and x['err'] == '' for x in evs[i + 1:]):
-            m = copy.deepcopy(evs)
-            del m[i]
-            yield 'delevent', m
-            break
+    # delete a Write whose bytes were needed: after it (and after the last
+    # Reset) more bytes were parsed than remain accepted without it, so the
+    # shortened trace must break the accounting rules
+    last_reset = max([i for i, e in enumerate(evs) if e['op'] == 'reset'] + [0])
+    tail = evs[last_reset:]
+    if last_reset > 0 and tail[0].get('err') == '':
+        accepted = len(tail[0].get('data') or [])
+    else:
+        accepted = 0
+    accepted += sum(e.get('n', 0) for e in tail[1:] if e['op'] in ('write', 'readfrom'))
+    parsed = sum(e.get('n', 0) for e in tail[1:] if e['op'] in ('parse', 'parsenil'))
+    if last_reset == 0 or tail[0].get('err') == '':
+        for i in range(len(evs) - 1, last_reset, -1):
+            e = evs[i]
+            if e['op'] == 'write' and e.get('n', 0) > 0 and parsed > accepted - e['n']:
+                m = copy.deepcopy(evs)
+                del m[i]
+                yield 'delevent', m
+                break
 
 
 def parser_features(evs):
@@ -456,7 +524,8 @@ def wrap_mutants(evs):
             yield 'flipbyte', m
             break
     for i, e in enumerate(evs):
-        if e['op'] == 'wparse' and e['err'] == '' and e['n'] > 0 and any(x['op'] == 'wparse' and x['err'] == '' for x in evs[i + 1:]):
+        if e['op'] == 'wparse' and e['err'] == '' and e['n'] > 0 and not any(x['op'] == 'wreset' for x in evs[i:]) \
+                and any(x['op'] in ('wparse', 'wparsenil') for x in evs[i + 1:]):
             m = copy.deepcopy(evs)
             del m[i]
             yield 'delevent', m
@@ -529,6 +598,119 @@ WRAP_ASSUME = [
     'recorded streams are <= 600 bytes, buffers <= 300 bytes',
 ]
 
+
+# ----------------------------------------------------------------------------
+# TwoRun family: C13, chunking clause of C08
+# ----------------------------------------------------------------------------
+def tworun_mutants(evs):
+    """change one observable result of a compared call of a non-reference run"""
+    if any(e['op'] in ('panic', 'timeout', 'livelock', 'stalled') for e in evs):
+        return
+    runs = [i for i, e in enumerate(evs) if e['op'] == 'run']
+    if len(runs) < 2:
+        return
+    start = runs[1]
+    synced = False
+    for i in range(start, len(evs)):
+        e = evs[i]
+        if e['op'] == 'sync':
+            synced = True
+        if e['op'] == 'run' and i > start:
+            break
+        ops = ('wparse',) if evs[0].get('mode') == 'chunk' else ('parse', 'wparse')
+        if synced and e['op'] in ops and e.get('err') == '' and e.get('lits'):
+            m = copy.deepcopy(evs)
+            m[i]['lits'][0] = (m[i]['lits'][0] + 1) % 256
+            yield 'flipbyte', m
+            m2 = copy.deepcopy(evs)
+            del m2[i]
+            yield 'delevent', m2
+            return
+
+
+def tworun_features(evs):
+    f = set()
+    mode = evs[0].get('mode')
+    kind = evs[0]['c']['kind']
+    run = None
+    synced = False
+    for e in evs[1:]:
+        op = e['op']
+        if op == 'run':
+            run = e['run']
+            synced = False
+        elif op == 'sync':
+            synced = True
+        elif op in ('panic', 'timeout', 'livelock', 'stalled'):
+            f.add(op)
+        elif run == 'R' and synced and op in ('parse', 'wparse') and e.get('seqs'):
+            f.add('match_compared')
+            f.add(mode + '_match_' + kind)
+        elif run != 'R' and not synced and op == 'shrink' and e.get('delta', 0) > 0:
+            f.add('history_with_discard')
+        elif run != 'R' and not synced and op == 'parse' and e.get('seqs'):
+            f.add('history_with_match')
+        elif op == 'reset' and e.get('data'):
+            f.add('reset_with_data')
+    return f
+
+
+def race_part(ctx, fam, scripts):
+    """Run concurrent scripts with a race-detector build of the driver. A
+    data race inside package lz is a violation of the concurrency clause of
+    C13; a race in the harness itself is an infrastructure error."""
+    binr = vlib.build_race_harness(ctx)
+    rlog = os.path.join(ctx.work, 'race')
+    vlib.drive(ctx, scripts, name='race', binary=binr, race_out=rlog, call_timeout='20s')
+    reports = []
+    for p in glob.glob(rlog + '.*'):
+        reports.append(open(p).read())
+    text = '\n'.join(reports)
+    n = text.count('WARNING: DATA RACE')
+    res = dict(race_scripts=len(scripts), race_reports=n)
+    if n == 0:
+        return 0, res
+    import re
+    tops = re.findall(r'(?:Write|Read|Previous write|Previous read) at [^\n]*\n\s+(\S+)\(', text)
+    in_lz = [t for t in tops if t.startswith('github.com/ulikunitz/lz')]
+    if not in_lz:
+        raise Infra('the race detector reported a race outside package lz (harness defect?):\n' + text[:3000])
+    d = os.path.join(vlib.VERIF, 'replays', ctx.prop)
+    if getattr(ctx, 'work_replays', False):
+        d = os.path.join('/tmp', 'seed-replays', ctx.prop)
+    os.makedirs(d, exist_ok=True)
+    path = os.path.join(d, 'race-%d.json' % ctx.seed)
+    json.dump(dict(property=ctx.prop, rules=['C13.no_shared_state'], report=text[:20000], scripts=scripts[:3]),
+              open(path, 'w'), indent=1)
+    log('VIOLATION property=%s replay=%s' % (ctx.prop, path))
+    log('  data race between distinct instances inside package lz: %s' % sorted(set(in_lz))[:4])
+    res['race_in_lz'] = sorted(set(in_lz))[:8]
+    return 1, res
+
+
+def run_tworun(ctx, fam):
+    t = ctx.thorough()
+    scale = 6 if t else 1
+    scripts = []
+    for gen, n in fam['gens']:
+        scripts += vlib.go_gen(ctx, gen, n * scale, ctx.seed)
+    scripts += corpus_scripts('tworun')
+    extra = {}
+    rc_race = 0
+    if fam.get('race'):
+        conc = vlib.go_gen(ctx, 'tworun-conc', fam['race'] * (3 if t else 1), ctx.seed + 7919)
+        rc_race, extra = race_part(ctx, fam, conc)
+    rc = finish(ctx, fam, scripts, 'TwoRun_Trace', tworun_mutants, tworun_features, extra_cov=extra,
+                call_timeout='20s')
+    return 1 if (rc == 1 or rc_race == 1) else rc
+
+
+TWORUN_ASSUME = [
+    'TLC evaluates TwoRun.tla correctly; the recorder logs every call of every run with its observable results (binding self-test)',
+    'the compared runs receive identical calls: all driver decisions depend only on script parameters and on the results returned (which must be equal)',
+    'goroutine schedules are those the Go scheduler produces while 8 instances run concurrently next to 3 busy parser/decoder goroutines (sampled, not enumerated); the race detector watches a subset of the concurrent scripts',
+]
+
 MIX_GENERAL = dict(walks=140, go=[('parser', 350), ('parser-runs', 49)])
 
 def fam_dbuf(rule):
@@ -536,20 +718,28 @@ def fam_dbuf(rule):
 
 
 PROPS = {
-    'C08': dict(run=run_wrap, trace_module='Wrap_Trace', assumptions=WRAP_ASSUME,
-                rule='histories = TLC random walks of WrapMC (calls x reader chunking / fault / EOF choices) run on all seven parsers + seeded Go histories (inputs shorter/longer than BufferSize, exact multiples of BlockSize/BufferSize, whole / single-byte / random short reads, data together with io.EOF, 1-3 reader faults with and without data, nil blocks, NoTrailingLiterals, WrappedParser.Reset with a second stream); rules C08.* (roundtrip over the bytes the reader handed out, progress, err_after_delivery, err_is_readers, eof_when_done, eof_sticky, layers_agree); non-trivial = distinct script with a refill, reader fault, data+EOF, match, skip or wreset'),
+    'C13': dict(run=run_tworun, trace_module='TwoRun_Trace', assumptions=TWORUN_ASSUME, race=16,
+                gens=[('tworun-reset', 280), ('tworun-conc', 14)],
+                rule='multi-run traces judged by TwoRun.tla: (reset) a parser with a history (fills, shrinks, matches; related data so that stale dictionary entries would match) is Reset with nil or with data and then receives the same calls as a fresh parser that got the same Reset - every compared call must return the same n, error and block; (det) two fresh parsers, same calls; (conc) one sequential reference run and 8 identical runs on distinct instances executed concurrently next to busy parsers and decoders, a subset under the Go race detector; all seven parsers; non-trivial = distinct script whose compared part contains a match'),
+    'C08': dict(run=run_multi, trace_module=None, parts=[
+        dict(run=run_tworun, trace_module='TwoRun_Trace', assumptions=TWORUN_ASSUME, gens=[('tworun-chunk', 210)],
+             rule='chunking independence: the same source through three WrappedParsers whose readers chunk differently (whole reads / single bytes / random short reads / data together with io.EOF), same flags: the sequences of (n, err, block) must be identical (TwoRun.tla, rule C08.chunking_equal)'),
+        dict(run=run_wrap, trace_module='Wrap_Trace', assumptions=WRAP_ASSUME,
+                rule='histories = TLC random walks of WrapMC (calls x reader chunking / fault / EOF choices) run on all seven parsers + seeded Go histories (inputs shorter/longer than BufferSize, exact multiples of BlockSize/BufferSize, whole / single-byte / random short reads, data together with io.EOF, 1-3 reader faults with and without data, nil blocks, NoTrailingLiterals, WrappedParser.Reset with a second stream); rules C08.* (roundtrip over the bytes the reader handed out, progress, err_after_delivery, err_is_readers, eof_when_done, eof_sticky, layers_agree, completes); non-trivial = distinct script with a refill, reader fault, data+EOF, match, skip or wreset')]),
     'C01': fam_parser('histories = TLC random walks of ParserBufMC (Write/ReadFrom chunkings and reader errors/Parse/Parse(nil)/Shrink/Reset/probes) instantiated for all seven parsers with the smallest gram sizes + seeded Go histories (11 input classes incl. runs of 0x00, periodic, Fibonacci, Thue-Morse, de Bruijn; tiny geometries in every order relation; pump loop with random flags, skips, shrinks, resets); rule C01.expand: every block expands on top of what a decoder holds to exactly the next n input bytes; non-trivial = distinct script whose trace has a match, a discard, a skip, NoTrailingLiterals with a match, a reset or a reader fault', MIX_GENERAL),
     'C02': fam_parser('same recordings as C01; rules C02.* on every emitted sequence at its absolute position (offset >= 1, <= WindowSize, <= position; length >= minimum, <= MaxMatchLen for OSAP; Aux = 0; LitLen sum <= literals)', MIX_GENERAL),
     'C03': fam_parser('same recordings as C01; rules C03.* (ErrEmptyBuffer iff nothing unparsed, emptied block, 1 <= n <= min(BlockSize, unparsed), Block.Len() = n, NoTrailingLiterals leaves no trailing literals); contiguity is the C01 equation of the next block', MIX_GENERAL),
     'C14': fam_parser('same recordings as C01 (10-30% nil blocks in a third of the scripts); rules C14.n, C14.empty_iff, and C14.block_after_skip = the round-trip equation for every block parsed after a skipped one', MIX_GENERAL),
     'C15': fam_parser('same recordings as C01 incl. probes (ReadAt/ByteAt at Off-2..Off+1 and end-2..end+1), Reset with caller slices of capacity len, len+3, len+7, len+8, len+20; rules C15.* (write_n, write_full_iff, readfrom_*, shrink_delta, reset_err, readat_*, byteat, no_panic)', MIX_GENERAL),
-    'C19': fam_parser('recordings: run generator (every byte class incl. 0x00, runs of 32..432 bytes crossing block and buffer boundaries, WindowSize 1/2) + the C01 generators; rules C19.right_maximal, C19.left_maximal (BHP, BDHP), C19.run_literals', dict(walks=70, go=[('parser-runs', 280), ('parser', 210)])),
+    'C19': fam_parser('recordings: run generator (every byte class incl. 0x00, runs of 32..432 bytes crossing block and buffer boundaries, WindowSize 1/2) + the C01 generators; + collision generator (hash parsers with 0..3 hash bits, repeats of 9..40 bytes); rules C19.right_maximal, C19.left_maximal (BHP, BDHP), C19.run_literals', dict(walks=70, go=[('parser-runs', 210), ('parser', 175), ('parser-collide', 150)])),
     'C12': fam_parser('recordings: GSAP only, histories without Parse(nil), blocks <= 64 bytes, buffers <= 130 bytes, half of them with BufferSize <= WindowSize, several fills / Shrinks / Resets; rules C12.match_longest (every emitted match equals the brute-force longest previous match in the buffered data, clipped at the block end) and C12.literal_justified', dict(walks=0, go=[('parser-gsap', 300)])),
     'C11': fam_parser('recordings: OSAP only, flags 0 mostly, blocks <= 64 bytes, buffers <= 130 bytes, several blocks per fill (edge reuse), blocks after Shrink; rule C11.cost_optimal: BlockCost = OptCost (forward DP over literal and nearest-source match edges written in TLA+)', dict(walks=0, go=[('parser-osap', 200)])),
     'C06': fam_dec('histories = random walks of Decoder.tla (API calls x writer fault schedule) + seeded Go-side histories with sizes around BufferSize-WindowSize / BufferSize, B < 2W, fault schedules and the retry protocol; C06 = no livelock / timeout event (no envelope action exists for them); liveness of the retry loops is model-checked (Terminates) on the design; non-trivial = distinct script with several flushes in one call, data larger than the free space, a refused or rejected block, or a writer fault'),
     'C07': fam_dec('same recordings as C06; rule C07.refused: without a writer fault a Decoder call may stop only at a malformed sequence; non-trivial as for C06'),
     'C18': fam_dec('same recordings as C06; rules C18.prefix (every writer call is offered exactly the continuation of the reference expansion), C18.err_is_writers, C18.exactly_once (after a fault-free Flush the sink equals the reference expansion, also after retries of Sequences[k:], Literals[l:]); non-trivial = distinct script with a writer fault, short write or fault in the middle of a block'),
-    'C04': fam_dbuf('histories = TLC transition cover / random walks of DecoderBufMC + seeded Go-side histories (B<=52, attacker values) + corpus; every event judged by the DecoderBuf envelope (data_suffix, retention, unread_kept, r_pos, read_out, reset); non-trivial = distinct script with a discard, mid-buffer read position, overlapping copy, rejected sequence, partial block or writer fault'),
+    'C04': dict(run=run_multi, parts=[fam_dbuf('histories = TLC transition cover / random walks of DecoderBufMC + seeded Go-side histories (B<=52, attacker values) + corpus; every event judged by the DecoderBuf envelope (data_suffix, retention, unread_kept, r_pos, read_out, reset); non-trivial = distinct script with a discard, mid-buffer read position, overlapping copy, rejected sequence, partial block or writer fault'),
+                                  fam_dec('Decoder level: the recordings of C06/C18 (TLC walks of Decoder.tla + seeded histories with writer faults and retries); rules C04.output_exact (every writer call is offered exactly the continuation of the reference expansion: each byte once, in order) and C04.flush_complete')],
+                trace_module=None),
     'C05': fam_dbuf('same recordings as C04, rules C05.* (malformed match/sequence must be rejected, consumed prefix must be expandable, atomicity via the abstraction equation, caller block untouched, no panic); non-trivial = distinct script with a rejected sequence / partial block / discard'),
     'C17': fam_dbuf('same recordings as C04, rules C17.* (n, k, l, write_n, Off = Len(hist) in every state); non-trivial = distinct script with a discard, partial block, rejected sequence'),
 }
